@@ -110,6 +110,16 @@ pub(super) fn latest_timestamp_file(
             .map(|path| ts_infix_from_path(&path, &config.file_spec))
             // parse infix as date, ignore all infixes where this fails
             .filter_map(|infix| timestamp_from_ts_infix(&infix, fmt).ok())
+            // with use_utc the infixes are rendered in UTC (see infix_from_timestamp)
+            .map(|ts| {
+                if config.use_utc {
+                    chrono::Utc
+                        .from_utc_datetime(&ts.naive_local())
+                        .with_timezone(&chrono::Local)
+                } else {
+                    ts
+                }
+            })
             // take the newest of these dates
             .reduce(|acc, e| if acc > e { acc } else { e })
             // if nothing is found, take Local::now()
